@@ -71,7 +71,7 @@ def check(ctx, only=None, list_only=False):
     meta = {
         "functions_encoded": ["vec_znx_rotate -> vec_znx_automorphism -> vec_znx_add -> vec_znx_normalize_base2k", "ntt120 vec_znx_dft -> vec_znx_idft / idft_tmp_a",
                               "svp_prepare -> svp_apply_dft -> vec_znx_idft_tmp_a", "vmp_prepare_contiguous -> [vec_znx_dft ->] vmp_apply_dft[_to_dft] -> vec_znx_idft_tmp_a"],
-        "bounds": "fixed pipelines of 2-4 public calls at N in {2,4,8} (integer pipeline: N=2 quick, N=4 thorough - 4 to 14 minutes per instance); operands symbolic (|x| <= 2^60 for the integer pipeline, all int64 by sign class for NTT120, real symbolic for FFT64)",
+        "bounds": "add_small2 -> big rotate -> big (range) normalize with 1..4 output limbs for a 3-limb big vector (N=2, symbolic data and p); fixed pipelines of 2-4 public calls at N in {2,4,8} (integer pipeline: N=2 quick, N=4 thorough - 4 to 14 minutes per instance); operands symbolic (|x| <= 2^60 for the integer pipeline, all int64 by sign class for NTT120, real symbolic for FFT64)",
         "outside": "random well-typed programs of length ~40 are not generated: arbitrary sequences are covered only by the compositional argument (a) over the per-operation "
                    "claims C01-C03, C05, C08, C09 within their bounds; pipelines mixing FFT64 products with the integer tail (big_add_small, big normalize) are not executed end to end",
         "assumptions": ["compositional argument: each producer establishes and each consumer assumes the same representation predicate", "as in C01/C02/C03 for the reused analyses"],
